@@ -18,7 +18,7 @@ Not decided: exactly-once / ordering over arbitrary block streams; compressed-si
 import re
 
 from facts import short_name
-from kinds import (comparisons, k1_callers, on_all_success_paths, bool_payload_edges, result_blocks,
+from kinds import (ordered, comparisons, k1_callers, on_all_success_paths, bool_payload_edges, result_blocks,
                    error_cut)
 
 CRATES = ["astria_sequencer_relayer.lib", "astria_conductor.lib", "astria_core.lib"]
@@ -57,7 +57,9 @@ def self_field_assigns(body, field):
 
 def t1(prog, rep):
     body = prog.main_body(CV + "NextSubmission::try_add")
-    le = [c for c in comparisons(body) if c.op == "Le" and "compressed_size" in c.a]
+    # `compressed_size <= MAX` in any spelling (operands swapped, negated `>`)
+    le = [o for o in ordered(body, r"compressed_size", r"^const\(") if "try_into_payload(" in o[1]] \
+        or ordered(body, r"compressed_size", r".")
     ai = self_field_assigns(body, "input")
     ap = self_field_assigns(body, "payload")
     rep.floor("T1", len(ai), 1, "assignments to self.input in try_add")
@@ -66,13 +68,13 @@ def t1(prog, rep):
         rep.fail("T1", "size-compare", "`compressed_size <= MAX_PAYLOAD_SIZE_BYTES` not found",
                  body.describe())
         return
-    c = le[0]
-    rep.check(c.b == f"const({MAX_PAYLOAD})", "T1", "bound=1_000_000",
-              f"payload bound compared against {c.b}", f"{body.file}:{c.line}")
-    rep.check("try_into_payload(" in c.a, "T1", "compare-candidate-payload",
-              f"compares {c.a[:80]}", f"{body.file}:{c.line}")
+    c, size_root, bound_root, within, _beyond = le[0]
+    rep.check(bound_root == f"const({MAX_PAYLOAD})", "T1", "bound=1_000_000",
+              f"payload bound compared against {bound_root}", f"{body.file}:{c.line}")
+    rep.check("try_into_payload(" in size_root, "T1", "compare-candidate-payload",
+              f"compares {size_root[:80]}", f"{body.file}:{c.line}")
     for (i, rv, line) in ai + ap:
-        rep.check(body.must_pass_edges(set(c.true_edges), i), "T1", f"commit<=within-bound:{line}",
+        rep.check(body.must_pass_edges(set(within), i), "T1", f"commit<=within-bound:{line}",
                   "the next submission is replaced by a candidate whose compressed payload was not "
                   "checked against the maximum payload size", f"{body.file}:{line}")
     # both assigned on the same paths
